@@ -367,8 +367,11 @@ def case_step(case):
         mc = copy.deepcopy(m)
         r.true("deepcopy == model", bool(mc == m), **{"opk": "init"})
         return r.done(outcome=canon(cfg, st))
+    _touch(m)
     for i, op in enumerate(hist):
         last = i == len(hist) - 1
+        if i:
+            _touch(m)
         if op["k"] == "integral_scale" and st["opts"].get("len_low", 0.0) > 0:
             # TPL models with a lower cut-off: integral scale is not proportional to len_scale and
             # the library documents that it may refuse ("please provide a len_scale")
@@ -466,6 +469,16 @@ def case_step(case):
         new.pop("_int_target", None)
         return r.done(outcome=canon(cfg, new))
     return r.done(outcome=canon(cfg, st))
+
+
+def _touch(m):
+    """use the model between the steps (anything cached by an evaluation must not survive a change)"""
+    try:
+        m.variogram(LAGS)
+        m.cor(LAGS)
+        m.spectral_density(np.array([0.5]))
+    except Exception:
+        pass
 
 
 def _fill_free(m, new, free):
